@@ -78,6 +78,16 @@ class C12(TalCheck):
                 cls = ch.pick(UNCAUGHT_NAMES)
                 plans.append(([{"site": k, "n": counts[k] - 1,
                                 "do": ["raise", cls]}], None))
+            # failures *after* the expression returned: while its value is
+            # converted for insertion (__html__) or iterated (__next__)
+            role = tmpl["roles"].get(str(k))
+            if role in ("content", "replace", "attr", "interp", "part"):
+                plans.append(([{"site": k, "n": 0, "do": ["ret", {
+                    "v": "badhtml", "cls": ch.pick(UNCAUGHT_NAMES)}]}], None))
+            elif role == "repeat":
+                plans.append(([{"site": k, "n": 0, "do": ["ret", {
+                    "v": "baditer", "n": ch.choose(3),
+                    "cls": ch.pick(UNCAUGHT_NAMES)}]}], None))
         # an earlier, recovered failure before a later, propagating one
         sites = sorted(counts)
         for _ in range(min(20, len(sites) * 2)):
